@@ -1,5 +1,5 @@
 SPECIFICATION Spec
-CONSTANTS Lenient = FALSE Alphabet = {0, 1, 2, 3} MaxLen = 7
+CONSTANTS ArrBE = FALSE Lenient = FALSE Alphabet = {0, 1, 2, 3} MaxLen = 7
 CONSTANT Formats <- MCFormats
 INVARIANT EndInside
 INVARIANT ReEncode
